@@ -42,8 +42,8 @@ def generate(tier, seed):
         cases.append({"kind": "mal_all", "w": w, "first": None, "cost": len(ALPHABET) ** w / 1e5})
     for first in ALPHABET:
         cases.append({"kind": "mal_all", "w": 3, "first": first, "cost": len(ALPHABET) ** 2 / 1e5})
-    nmal = 16 if tier == "quick" else 64
-    per = 12500 if tier == "quick" else 80000
+    nmal = 16 if tier == "quick" else 256
+    per = 12500 if tier == "quick" else 200000
     for k in range(nmal):
         cases.append({"kind": "mal_rand", "n": per, "seed": "%d:mal:%d" % (seed, k), "cost": 2})
     # pipeline: serial rewrites
